@@ -356,7 +356,7 @@ void add_jobs(mc::Main& m)
         idivs<T>(c, pair_space<T, T>(wide16_default()));
         ipows<T>(c);
     });
-    #if !defined(MC_FLAVOUR_SAN) && !defined(MC_FLAVOUR_CHK)
+    #if !defined(MC_FLAVOUR_SAN) && !defined(MC_FLAVOUR_CHK) && !defined(MC_FLAVOUR_O2)
     if constexpr (sizeof(T) == 2) {
         // thorough: the complete 2^16 x 2^16 square, 16 slices
         for (unsigned k = 0; k < 16; ++k) {
